@@ -7,7 +7,13 @@ patch=$(readlink -f "$1"); cid=$2; shift 2
 d=$(mktemp -d /tmp/tryseed.XXXXXX)
 git -C /repo archive HEAD | tar -x -C "$d"
 ( cd "$d" && git init -q . 2>/dev/null && git apply --whitespace=nowarn "$patch" ) || { echo "PATCH DOES NOT APPLY"; rm -rf "$d"; exit 2; }
-cd /verif && VERIF_REPO="$d" VERIF_OUT="$d/_out" VERIF_BUILD="$d/_build" ./check "$cid" --no-proof "$@" 2>&1 | tail -6
+if [ "${WITH_PROOF:-0}" = "1" ]; then
+  # full run incl. layer P: needs its own copy of the Coq sources (Gen/*.v is regenerated from the seeded tree)
+  mkdir -p "$d/_coq" && rsync -a --include='*/' --include='*.v' --include='_CoqProject' --exclude='*' --exclude='Gen/*.v' /verif/coq/ "$d/_coq/" && rm -f "$d/_coq/Gen/"*.v
+  cd /verif && VERIF_REPO="$d" VERIF_OUT="$d/_out" VERIF_BUILD="$d/_build" VERIF_COQ="$d/_coq" ./check "$cid" "$@" 2>&1 | tail -8
+else
+  cd /verif && VERIF_REPO="$d" VERIF_OUT="$d/_out" VERIF_BUILD="$d/_build" ./check "$cid" --no-proof "$@" 2>&1 | tail -6
+fi
 rc=${PIPESTATUS[0]}
 rm -rf "$d"
 exit $rc
